@@ -268,9 +268,13 @@ func checkC03(tier string) *Report {
 			}
 		}
 		if r.Panic != "" && jb.mode == "panic" {
-			// the injected panic propagated: the enclosing transaction aborts, nothing is committed — all-or-nothing
-			// holds (whether the receive path may abort the transaction at all is C14's subject)
+			// the injected panic propagated. Nothing is committed (the transaction aborts), but "a failure at any step yields an error
+			// acknowledgement" — and a step that fails by panicking has failed: the sender is never refunded by a transaction that
+			// aborts on every relay. On the unchanged tree every injected panic comes back as an error acknowledgement (fix 0d56326);
+			// seed C03i moved the pre-transfer hook out of the recovery.
 			rep.Outcome("injected-panic-propagated")
+			rep.Violate(Violation{Kind: "failed-step-aborts-instead-of-error-ack", Group: group, Sig: sig, Replay: replay,
+				What: fmt.Sprintf("a step of the handling failed by panicking and the panic left the receive path (the relayer's transaction aborts, no acknowledgement, no refund) instead of an error acknowledgement: %s under %s", trunc(r.Panic, 200), sig)})
 			return
 		}
 		if r.Panic != "" {
